@@ -39,6 +39,9 @@ func genCtl(r *simrt.Rand, tier string, flavor string) json.RawMessage {
 	if flavor == "C14" && r.Bool(0.2) {
 		return genCtlReplicaChangeBetweenSnapshots(r, c)
 	}
+	if flavor == "C14" && r.Bool(0.15) {
+		return genCtlDeletionCoveredBySnapshot(r, c)
+	}
 	if (flavor == "C20" || flavor == "C18") && r.Bool(0.15) {
 		return genCtlRemoveLeader(r, c)
 	}
@@ -272,6 +275,45 @@ func genCtlRejoinThroughLaggingMember(r *simrt.Rand, c W3Case) json.RawMessage {
 	return b
 }
 
+// genCtlDeletionCoveredBySnapshot: a member is cut off while datasets are deleted (all of
+// them in half of the cases, so that the catalogue is empty), the zero group compacts the
+// deletions into a snapshot, then the member comes back and is caught up by it.
+func genCtlDeletionCoveredBySnapshot(r *simrt.Rand, c W3Case) json.RawMessage {
+	c.Nodes = r.Range(2, 3)
+	c.Faults = false
+	c.Cfg.Net = NetCfg{MinLatMs: 1, JitterMs: r.Range(0, 10)}
+	c.Cfg.SnapshotOffset = int64(r.Range(1, 3))
+	n := r.Range(1, 3)
+	for i := 1; i <= n; i++ {
+		c.Ops = append(c.Ops, W3Op{K: "create", Node: r.Range(1, c.Nodes), DS: i, P: r.Range(1, 2), R: r.Range(1, 2)})
+	}
+	m := r.Range(2, c.Nodes)
+	if c.Nodes == 3 && r.Bool(0.3) {
+		m = 1
+	}
+	c.Ops = append(c.Ops, W3Op{K: "wait", Ms: r.Range(500, 3000)}, W3Op{K: "isolate", Node: m})
+	via := 1
+	if m == 1 {
+		via = 2
+		c.Ops = append(c.Ops, W3Op{K: "wait", Ms: r.Range(4000, 6000)}) // the others elect a leader
+	}
+	keep := 0
+	if n > 1 && r.Bool(0.5) {
+		keep = r.Range(1, n)
+	}
+	for i := 1; i <= n; i++ {
+		if i != keep {
+			c.Ops = append(c.Ops, W3Op{K: "delete", Node: via, DS: i})
+		}
+	}
+	c.Ops = append(c.Ops, W3Op{K: "wait", Ms: r.Range(10500, 13000)}, W3Op{K: "heal"})
+	if r.Bool(0.3) {
+		c.Ops = append(c.Ops, W3Op{K: "wait", Ms: r.Range(1000, 4000)}, W3Op{K: "crash", Node: m}, W3Op{K: "restart", Node: m})
+	}
+	b, _ := json.Marshal(CtlCase{W3: c})
+	return b
+}
+
 type ctlState struct {
 	removed        map[int]bool // node index -> removal acknowledged (node stopped for good)
 	joinAcked      map[int]bool // node index -> its join handshake completed at least once
@@ -291,7 +333,7 @@ func (r *W3Run) execCtlOps(st *ctlState) {
 			if op.Node < 1 || op.Node > len(s.nodes) || st.removed[op.Node] {
 				continue
 			}
-			h := r.createDataset(op.DS, s.nodes[op.Node-1], op.P, op.R, 2+op.DS, 0, !op.Async)
+			h := r.createDataset(op.DS, s.nodes[op.Node-1], op.P, op.R, 2+op.DS, op.DS%3, !op.Async) // all three metrics
 			h.idx = i
 			st.dsAck[op.DS] = "unknown"
 			s.out.Stat("catalogue_creates", 1)
